@@ -1,4 +1,5 @@
 import GwModel.Batch
+import GwModel.InjectBatch
 import GwModel.Gen.Facts
 /-! # C16 — Batched operations keep their order and equal their single-request answers -/
 namespace Props.C16
@@ -27,5 +28,22 @@ theorem any_two_orders_agree {O R : Type} (respond : O → R) (ops : List O) (σ
   rw [order_independent respond ops σ₁ h₁, order_independent respond ops σ₂ h₂]
 
 example : runBatch (fun n : Nat => n * 10) [1, 2, 3] [2, 0, 1] = [some 10, some 20, some 30] := by decide
+
+/-- **a member of a multipart batch gets from a map path exactly what it gets when it is sent alone** (`InjF`, the model
+    of `injectFile`, tied by L2.inject): a batch path `i.<path>` is the path walked in member `i` alone; every other
+    member is left as it was -/
+theorem a_batch_member_gets_the_file_it_gets_alone (ops : InjF.Ops) (f : Nat) (path path' : String) (p : String) (i : Nat)
+    (v : Inj.J) (hparts : InjF.splitDots path = p :: InjF.splitDots path') (hidx : InjF.atoi p = some (Int.ofNat i))
+    (hv : ops[i]? = some v) :
+    InjF.injectPath ops true f path = (InjF.injectPath [v] false f path').map (fun one => ops.set i (one.headD v)) :=
+  InjF.batch_member_gets_what_it_gets_alone ops f path path' p i v hparts hidx hv
+
+/-- non-vacuity (on the parts of the path; that `"1.variables.f"` splits into `"1"` and the parts of `"variables.f"`
+    is what `strings.Split` does and is exercised by L2.inject): member 1 of a batch of two gets the file, a member
+    that does not exist is refused -/
+example :
+    ((InjF.afterSelection [.obj [("f", .null)], .obj [("f", .null)]] 7 1 ["variables", "f"]).toOption.bind
+      (fun ops => ops[1]?.bind (InjF.getAtGo · ["f"]))).isSome = true ∧
+    (InjF.afterSelection [.obj [("f", .null)], .obj [("f", .null)]] 7 2 ["variables", "f"]).toOption.isNone = true := by decide
 
 end Props.C16
